@@ -492,7 +492,8 @@ pub fn run(cfg: &Cfg, rep: &mut Report) {
     if !cfg.mine(i) {
       continue;
     }
-    let c = random_case(&mut r, kmax);
+    // a quarter of the cases have up to kmax+3 inners, so that three or more can wait at once
+    let c = random_case(&mut r, if i % 4 == 0 { kmax + 3 } else { kmax });
     check(cfg, rep, &format!("rand:{}", i), &c);
   }
 
